@@ -202,11 +202,28 @@ func init() {
 			}
 			return "", false
 		}
+		// a first-match site is the same site whether the loop is left by `break` (work after the loop) or by `return`
+		// (work inlined into the loop body): judged by the reviewed first-match site of the same function
+		sameFnPick := func(k string) (string, bool) {
+			ck := coarseChoice(k)
+			i := strings.Index(ck, ": ")
+			if i < 0 || !strings.HasPrefix(ck[i+2:], "first-match") {
+				return "", false
+			}
+			for rk, why := range coarse {
+				if j := strings.Index(rk, ": "); j >= 0 && rk[:j] == ck[:i] && strings.HasPrefix(rk[j+2:], "first-match") {
+					return why, true
+				}
+			}
+			return "", false
+		}
 		for _, k := range cs {
 			if why, ok := choiceJustified[k]; ok {
 				r.Add("C08-choice", k, res.Choice[k], core.Excepted, why)
 			} else if why, ok := coarse[coarseChoice(k)]; ok {
 				r.Add("C08-choice", k, res.Choice[k], core.Excepted, why+" (same function and kind of site as the reviewed one)")
+			} else if why, ok := sameFnPick(k); ok {
+				r.Add("C08-choice", k, res.Choice[k], core.Excepted, why+" (the reviewed first-match site of this function, leaving the loop by another statement)")
 			} else if why, ok := moved(k); ok {
 				r.Add("C08-choice", k, res.Choice[k], core.Excepted, why)
 			} else {
